@@ -53,7 +53,8 @@ class SchedLock(object):
     def __init__(self, reentrant=False):
         self._real = _real_RLock() if reentrant else _real_Lock()
         self._reentrant = reentrant
-        self.vf_owner_hint = None
+        self._vf_owner = None  # name of the registered thread holding it (for deadlock diagnosis)
+        self._vf_depth = 0
 
     def acquire(self, blocking=True, timeout=-1):
         s = ACTIVE
@@ -61,7 +62,9 @@ class SchedLock(object):
             if not blocking:
                 return self._real.acquire(False)
             return self._real.acquire(True, timeout)
-        s.blocking_op(lambda: self._real.acquire(False), "lock")
+        s.blocking_op(lambda: self._real.acquire(False), "lock", self)
+        self._vf_owner = s.me()
+        self._vf_depth += 1
         return True
 
     def release(self):
@@ -69,6 +72,10 @@ class SchedLock(object):
         if RELEASE_HOOKS:
             for hk in list(RELEASE_HOOKS):
                 hk(self)
+        if self._vf_depth > 0:
+            self._vf_depth -= 1
+            if self._vf_depth == 0:
+                self._vf_owner = None
         self._real.release()
         if s is not None:
             s.state_changed()
@@ -318,6 +325,8 @@ class Scheduler(object):
         self.fired = []  # (name, k, file:line)
         self.ndyn = 0
         self.last_progress = time.monotonic()
+        self.waiting = {}  # thread name -> (what, object) of the blocking operation it is retrying
+        self.deadlock = None
 
     # ---- helpers
     def _prio_of(self, name):
@@ -366,7 +375,14 @@ class Scheduler(object):
                 self.current = None
                 self.cv.notify_all()
                 return
-            # everybody is blocked: wait for something external (thread exit, unregistered thread) and retry
+            # everybody is blocked. If each one waits for a lock held by another blocked (or finished) registered thread,
+            # nothing can ever change: a deadlock of the code under test, decided logically, not by a clock.
+            dl = self._deadlocked(waiting)
+            if dl:
+                self.deadlock = dl
+                self._abort("deadlock: " + dl)
+                raise SchedAbort(self.aborted)
+            # otherwise wait for something external (thread exit, unregistered thread) and retry
             self.polls += 1
             if self.polls > self.POLL_LIMIT:
                 self._abort("all registered threads blocked (%s)" % ",".join(t.name for t in waiting))
@@ -382,6 +398,22 @@ class Scheduler(object):
             self.cv.notify_all()
             if me is not None:
                 self._wait_for_token(me)
+
+    def _deadlocked(self, waiting):
+        names = set(t.name for t in waiting)
+        parts = []
+        for t in waiting:
+            what, obj = self.waiting.get(t.name, (None, None))
+            if what != "lock" or obj is None:
+                return None
+            owner = obj._vf_owner
+            if owner is None:
+                return None
+            ot = self.threads.get(owner)
+            if owner not in names and not (ot is not None and ot.status == "done"):
+                return None
+            parts.append("%s waits for a lock held by %s" % (t.name, owner))
+        return "; ".join(parts) if parts else None
 
     # ---- thread life cycle
     def register(self, name):
@@ -436,14 +468,16 @@ class Scheduler(object):
                 self.fired.append((me, t.events, "%s:%s" % (code.co_filename.rsplit("/", 1)[-1], line) if code is not None else kind))
             self._hand_over(me)
 
-    def blocking_op(self, attempt, what):
+    def blocking_op(self, attempt, what, obj=None):
         me = self.me()
         while True:
             self.yield_point(me, what)
             if attempt():
+                self.waiting.pop(me, None)
                 return True
             with self.cv:
                 self.threads[me].blocked = True
+                self.waiting[me] = (what, obj)
 
     def state_changed(self):
         with self.cv:
@@ -458,6 +492,7 @@ class Scheduler(object):
             "trace": [tuple(x) for x in self.trace],
             "fired": list(self.fired),
             "aborted": self.aborted,
+            "deadlock": self.deadlock,
             "polls": self.polls,
             "dynamic_threads": self.ndyn,
         }
